@@ -190,6 +190,10 @@ class mapper(object):
         n = self.__map.lastw
         try:
             i = K.index(k.a)
+            if self.__map[k.a].size < k.size:
+                # k extends beyond what was written at k.a: the rest may
+                # have been written through any other pointer before
+                i = -1
         except ValueError:
             # k has never been written to explicitly
             # but it is maybe in a zone that was written to
